@@ -169,4 +169,107 @@ theorem own_kind_protected (t : Topo) (s : CSet) (flags : Nat) (p : Params) (hp 
     obtain ⟨x, hx, hxt, hxi⟩ := coverT_spec _ _ _ hc i hi
     exact ⟨x, hx, hxt, by rw [hxi]; exact hsi⟩
 
+/-! ### the protected object of the OTHER kind under REMOVE_CPULESS / REMOVE_MEMLESS -/
+
+theorem osBit_testBit (x : RObj) : (osBit x).testBit x.osidx.toNat = true := by
+  unfold osBit
+  rw [Nat.testBit_shiftLeft]
+  simp
+
+theorem foldl_or_mono (c : RObj → Bool) (l : List RObj) (init j : Nat) (h : init.testBit j = true) :
+    (l.foldl (fun acc o => if c o = true then acc ||| osBit o else acc) init).testBit j = true := by
+  induction l generalizing init with
+  | nil => exact h
+  | cons y ys ih =>
+    rw [List.foldl_cons]
+    apply ih
+    split
+    · rw [Nat.testBit_or, h]; rfl
+    · exact h
+
+/-- the os_index of every listed object that meets the condition is in the folded mask -/
+theorem foldl_or_bit (c : RObj → Bool) (l : List RObj) (init : Nat) (x : RObj) (hx : x ∈ l) (hc : c x = true) :
+    (l.foldl (fun acc o => if c o = true then acc ||| osBit o else acc) init).testBit x.osidx.toNat = true := by
+  induction l generalizing init with
+  | nil => cases hx
+  | cons y ys ih =>
+    rw [List.foldl_cons]
+    rcases List.mem_cons.1 hx with rfl | hx
+    · apply foldl_or_mono
+      rw [if_pos hc, Nat.testBit_or, osBit_testBit]
+      simp
+    · exact ih _ hx
+
+theorem not_inside_exists {x : Nat} {d : CSet} (h : inside x d = false) : ∃ i, x.testBit i = true ∧ d.mem i = false := by
+  unfold inside at h
+  have hne : minus x d ≠ 0 := by simpa using h
+  obtain ⟨i, hi⟩ := Nat.exists_testBit_of_ne_zero hne
+  rw [testBit_minus] at hi
+  simp only [Bool.and_eq_true, Bool.not_eq_true'] at hi
+  exact ⟨i, hi.1, hi.2⟩
+
+theorem ofMask_mem (m i : Nat) : (CSet.ofMask m).mem i = m.testBit i := by
+  unfold CSet.ofMask CSet.mem
+  simp
+
+/-- under REMOVE_CPULESS (by cpuset) a call is refused when every allowed node would be dropped; so some allowed index is not the
+    os_index of a dropped node, and when the allowed nodeset is covered, the NUMA node that carries it is protected; the mirror under
+    REMOVE_MEMLESS (by nodeset) -/
+theorem other_kind_protected (t : Topo) (s : CSet) (flags : Nat) (p : Params) (hp : plan t s flags = some p)
+    (hx : p.rmExempt = true) :
+    (p.byNode = false → coverT t.allowedNode tNUMA t.tree = true → ∃ x ∈ objsT t.tree, x.type = tNUMA ∧ protNUMA p x = true) ∧
+    (p.byNode = true → coverT t.allowedCpu tPU t.tree = true → ∃ x ∈ objsT t.tree, x.type = tPU ∧ protPUn p x = true) := by
+  have hs := plan_some t s flags p hp
+  constructor
+  · intro hb hc
+    obtain ⟨hdc, _, _, hrm⟩ := hs.2.2.2.1 hb
+    obtain ⟨hdn, hin⟩ := hrm hx
+    obtain ⟨i, hi, hni⟩ := not_inside_exists hin
+    obtain ⟨x, hxm, hxt, hxi⟩ := coverT_spec _ _ _ hc i hi
+    refine ⟨x, hxm, hxt, ?_⟩
+    rw [hdn, ofMask_mem] at hni
+    have hcond : (x.cpuset == 0 || inside x.cpuset s.compl) = false := by
+      cases hcc : (x.cpuset == 0 || inside x.cpuset s.compl) with
+      | false => rfl
+      | true =>
+        exfalso
+        have := foldl_or_bit (fun o => o.cpuset == 0 || inside o.cpuset s.compl)
+          ((objsT t.tree).filter (fun o => o.type == tNUMA)) 0 x (List.mem_filter.2 ⟨hxm, by rw [hxt]; rfl⟩) hcc
+        unfold droppedNodes at hni
+        rw [hxi] at this
+        rw [this] at hni
+        cases hni
+    simp only [Bool.or_eq_false_iff, beq_eq_false_iff_ne, ne_eq] at hcond
+    unfold protNUMA
+    rw [hxt, shrinkG_cpuset, hdc]
+    have hm : minus x.cpuset s.compl ≠ 0 := by
+      have := hcond.2; unfold inside at this; simpa using this
+    split <;> simp [hcond.1, hm]
+  · intro hb hc
+    obtain ⟨hdn, _, _, hrm⟩ := hs.2.2.2.2 hb
+    obtain ⟨hdc, hin⟩ := hrm hx
+    obtain ⟨i, hi, hni⟩ := not_inside_exists hin
+    obtain ⟨x, hxm, hxt, hxi⟩ := coverT_spec _ _ _ hc i hi
+    refine ⟨x, hxm, hxt, ?_⟩
+    rw [hdc, ofMask_mem] at hni
+    have hcond : (x.cpuset == 0 || inside x.nodeset s.compl) = false := by
+      cases hcc : (x.cpuset == 0 || inside x.nodeset s.compl) with
+      | false => rfl
+      | true =>
+        exfalso
+        have := foldl_or_bit (fun o => o.cpuset == 0 || inside o.nodeset s.compl)
+          ((objsT t.tree).filter (fun o => o.type == tPU)) 0 x (List.mem_filter.2 ⟨hxm, by rw [hxt]; rfl⟩) hcc
+        unfold droppedPUs at hni
+        rw [hxi] at this
+        rw [this] at hni
+        cases hni
+    simp only [Bool.or_eq_false_iff, beq_eq_false_iff_ne, ne_eq] at hcond
+    unfold protPUn
+    rw [hxt, shrinkG_nodeset, hdn]
+    have hm : minus x.nodeset s.compl ≠ 0 := by
+      have := hcond.2; unfold inside at this; simpa using this
+    have hn0 : x.nodeset ≠ 0 := by
+      intro e; rw [e, minus_zero] at hm; exact hm rfl
+    split <;> simp [hn0, hm]
+
 end Hw.Topo.Restrict
